@@ -1263,14 +1263,15 @@ def _register_fn(U):
     U["blake3_compress_in_place_fn"] = _fn(
         "blake3_compress_in_place",
         "every dispatch branch: cv' == UFcip(cv, block[0..64), block_len, counter, flags) -- all five "
-        "arguments reach the selected kernel unchanged")
+        "arguments reach the selected kernel unchanged", solver="minisat2")
     U["blake3_compress_xof_fn"] = _fn(
         "blake3_compress_xof",
-        "every dispatch branch: out[0..64) == UFxof(cv, block[0..64), block_len, counter, flags)")
+        "every dispatch branch: out[0..64) == UFxof(cv, block[0..64), block_len, counter, flags)", solver="cadical")
     U["blake3_xof_many_fn"] = _fn(
         "blake3_xof_many",
         "every byte: out[64 b + j] == UFxof(cv, block, block_len, counter + b, flags)[j] for every b < outblocks "
-        "(unbounded; loop contract with the witness byte) on the avx512 and the fallback path", props=["C06", "C07"])
+        "(unbounded; loop contract with the witness byte) on the avx512 and the fallback path", props=["C06", "C07"],
+        solver="minisat2", tier="thorough", timeout=900)
     hm_doc = ("every dispatch branch, every output byte: out[32 i + j] == UFrow(inputs[i][0..64*blocks), key[0..8), counter "
               "(+ i iff increment_counter), flags, flags_start, flags_end, blocks)[j]: all ten arguments reach the selected "
               "kernel unchanged and in order")
@@ -1288,22 +1289,34 @@ def _register_fn(U):
     U["output_chaining_value_fn"] = _fn(
         "output_chaining_value",
         "cv[0..32) == little-endian words of UFcip(self->input_cv, self->block, self->block_len, self->counter, "
-        "self->flags): ONE compression of exactly the node's five fields")
+        "self->flags): ONE compression of exactly the node's five fields", solver="minisat2")
     U["output_root_bytes_fn"] = _fn(
         "output_root_bytes",
         "EVERY byte i < out_len (unbounded, every seek): out[i] == UFxof(node fields, flags | ROOT, block counter "
         "(seek+i)/64)[(seek+i)%64]: nothing requested is left unwritten, head / bulk / tail use the right counter "
         "and offset", props=["C06", "C07"])
-    fin_bound = ["cv_stack_len <= 3 (the roll-up loop is unwound, unwinding assertion passes): the closed form of the "
-                 "root node is stated for at most 3 stack entries; seek and out_len are unbounded"]
+    U["compress_parents_parallel_fn"] = _fn(
+        "compress_parents_parallel",
+        "every output byte: out[32 i ..] == UFrow(child[64 i .. 64 i + 64) = (CV 2i, CV 2i+1) in this order, key, counter 0 "
+        "not incremented, flags | PARENT, no start/end flags, 1 block) for i < n/2; an odd last child is copied verbatim "
+        "to slot n/2 (2 <= n <= 32 as in the base unit)", solver="minisat2", timeout=600)
+    fin_bound = ["cv_stack_len <= 3: the closed form of the root node is stated for at most 3 stack entries and proved per "
+                 "concrete (stack length, bytes pending?) case with the roll-up loop unwound (bound 4, unwinding assertion "
+                 "passes); seek, out_len, every byte of the hasher state are unconstrained (HASHER_WF)"]
+    fin_doc = ("every byte i < out_len, every seek: out[i] == UFxof(ROOT node, counter (seek+i)/64)[(seek+i)%64] where the root "
+               "node is the closed-form fold of the stack with key, flags | PARENT, counter 0, block_len 64 (harness calls the "
+               "function directly and asserts the contract's VFIN_POST; callees replaced by their contracts); cases: ")
+    fin_kw = dict(props=["C06", "C07"], loops=[], pre_unwind=[("blake3.c", "blake3_hasher_finalize_seek", 0, 4)],
+                  level="bounded", bounded=fin_bound, harness="blake3_hasher_finalize_seek_fn", enforce="callees")
     U["blake3_hasher_finalize_seek_fn"] = _fn(
         "blake3_hasher_finalize_seek",
-        "every byte i < out_len, every seek: out[i] == UFxof(ROOT node, counter (seek+i)/64)[(seek+i)%64] where the root "
-        "node is, for <= 3 stack entries, the closed-form fold of the stack: chunk node alone / parent(S0, CV(chunk)) / "
-        "parent(S0, P(S1, CV(chunk))) / ... with bytes pending, parent(S0, S1) / parent(S0, P(S1, S2)) without: the right "
-        "entries, in the right order, with key, flags | PARENT, counter 0, block_len 64",
-        props=["C06", "C07"], loops=[], unwind=5, level="bounded", bounded=fin_bound, harness="blake3_hasher_finalize_seek_fn",
-        enforce="callees")
+        fin_doc + "no bytes pending in the chunk state: empty hasher (root = chunk node), 2 entries (root = parent(S0, S1)), "
+        "3 entries (root = parent(S0, P(S1, S2))); and a first partial chunk alone (root = chunk node)",
+        defs=["-DVERIF_FN", "-DVERIF_FIN_CASES=0x17"], **fin_kw)
+    U["blake3_hasher_finalize_seek_pending_fn"] = _fn(
+        "blake3_hasher_finalize_seek",
+        fin_doc + "bytes pending in the chunk state and 1 stack entry (an input of 1..2 chunks): root = parent(S0, CV(chunk))",
+        defs=["-DVERIF_FN", "-DVERIF_FIN_CASES=0x08"], tier="thorough", timeout=1500, **fin_kw)
     U["blake3_hasher_finalize_fn"] = _fn(
         "blake3_hasher_finalize",
         "== finalize_seek(self, 0, out, out_len) also functionally: same root-node clause with seek = 0 (<= 3 stack entries)",
